@@ -6,4 +6,5 @@ set -e
 cd /verif
 mkdir -p .work .cache evidence replays
 python3 tools/overlay.py >/dev/null
+python3 tools/overlay_ord.py >/dev/null
 exit 0
